@@ -28,6 +28,8 @@ pub struct Prefix {
     pub solve_ci: usize,
     pub deterministic: bool,
     pub runs: Vec<Outcome>,
+    /// per transition: the call that performed it returned a path
+    pub ok_at: Vec<bool>,
 }
 
 fn set_budget(scn: &mut Scenario, ci: usize, n: u64) {
@@ -86,7 +88,13 @@ pub fn prefix_replay(scn: &Scenario, n: u64) -> Option<Prefix> {
         }
     }
     let setup_ev = last.calls[setup_ci].ev_lo;
-    Some(Prefix { snaps, last, iters, setup_ev, solve_ci, deterministic, runs })
+    let mut ok_at = vec![false; snaps.len().saturating_sub(1)];
+    if matches!(last.calls[solve_ci].res, Res::Path(_)) {
+        if let Some(x) = ok_at.last_mut() {
+            *x = true;
+        }
+    }
+    Some(Prefix { snaps, last, iters, setup_ev, solve_ci, deterministic, runs, ok_at })
 }
 
 /// *Stepwise* driver: one planner instance, `solve` called n times, each call given exactly one
@@ -103,6 +111,7 @@ pub fn stepwise(scn: &Scenario, n: u64) -> Option<Prefix> {
     let out = run(&s, &RunOpts::default());
     let mut snaps = vec![out.calls.get(setup_ci)?.snap.clone()?];
     let mut iters = vec![];
+    let mut ok_at = vec![];
     let mut last_ci = setup_ci;
     for ci in setup_ci + 1..out.calls.len() {
         let c = &out.calls[ci];
@@ -115,12 +124,14 @@ pub fn stepwise(scn: &Scenario, n: u64) -> Option<Prefix> {
         snaps.push(snap);
         iters.push((lo, c.ev_hi));
         last_ci = ci;
-        if !matches!(c.res, Res::Err(crate::sim::ErrKind::Timeout)) {
+        ok_at.push(matches!(c.res, Res::Path(_)));
+        // a returned path does not end the history: the caller solves again on the kept tree
+        if !matches!(c.res, Res::Err(crate::sim::ErrKind::Timeout) | Res::Path(_)) {
             break;
         }
     }
     let setup_ev = out.calls[setup_ci].ev_lo;
-    Some(Prefix { snaps, last: out.clone(), iters, setup_ev, solve_ci: last_ci, deterministic: true, runs: vec![out] })
+    Some(Prefix { snaps, last: out.clone(), iters, setup_ev, solve_ci: last_ci, deterministic: true, runs: vec![out], ok_at })
 }
 
 // ------------------------------------------------------------------------------------------
@@ -584,6 +595,9 @@ impl Check for TreeProp {
         if scn.param("enumerated").is_some() {
             rep.probe("enumerated_sequence");
         }
+        if px.ok_at.iter().rev().skip(1).any(|x| *x) {
+            rep.probe("stepped_on_after_success");
+        }
         if !px.deterministic {
             rep.probe("prefix_nondeterministic");
             return rep;
@@ -894,7 +908,7 @@ impl TreeProp {
                     // one nor had any state of a connect motion rejected (by the checker or by
                     // the bounds) never tried — unless the call ended right there because the
                     // start tree reached the goal by itself.
-                    let ended_in_success = i + 2 == px.snaps.len() && matches!(px.last.calls[px.solve_ci].res, Res::Path(_));
+                    let ended_in_success = px.ok_at.get(i).copied().unwrap_or(false);
                     let rejected = !convex || evs.iter().any(|e| matches!(e, Ev::Valid(_, false)));
                     if !ended_in_success && !rejected {
                         return Err(viol("C16", sig("connect_not_attempted"), format!("iteration {it}: the first tree was extended but the other tree neither grew nor had a connect motion rejected (no connect attempt toward the new node)")));
